@@ -99,3 +99,5 @@ func buildUsable(w *Worker, c *GCase) (*ref.Grammar, *ygo.Result, *ygo.View, str
 	}
 	return g, res, vw, text
 }
+
+func refOf(c *GCase) *ref.Grammar { return ref.FromSpec(c.Spec) }
